@@ -102,6 +102,9 @@ def run(ctx):
             for pad in (0, 16):
                 pl = ln - 3 - pad
                 big.append((hdr(24) + b'\x01' + pl.to_bytes(2, 'big') + bytes(pl + pad), 'ok 0 (Plain (Hdr 24 %d %d) [(Hb 1 %d %s)])' % (v, ln, pl, S(8, pl))))
+    # the most handshake messages a record can hold: 4-byte messages with an empty body, up to the record cap
+    for ln in (16384, 16388, 16640):
+        big.append((bytes([22, 3, 3]) + ln.to_bytes(2, 'big') + b'\x00\x00\x00\x00' * (ln // 4), 'ok 0 (Plain (Hdr 22 771 %d) [%s])' % (ln, ' '.join(['(Hs HelloRequest)'] * (ln // 4)))))
     common.run_exact(ctx, [enc.Case('limit_sized_records', ('tls_plaintext',), b, [], None, expect=e) for b, e in big])
     # every unknown content type is rejected, for any payload
     unk = []
